@@ -15,7 +15,7 @@ RULE = ('1-4 line-number programs per .debug_line (version 2-5 x DWARF32/64 x ad
         'a sequence with >=5 rows from >=3 opcode classes, or non-default header parameters (opcode_base != 13, max_ops > 1, '
         'min_inst > 1). Distinct by SHA-1 of .debug_line + .debug_info.')
 N = {'quick': 2500, 'thorough': 80000}
-ASSUMPTIONS = ['header_length is exact (no vendor padding between header and opcodes); program format/address size equal those of the referencing CU',
+ASSUMPTIONS = ['header_length designates the first opcode; in 15 % of the programs it covers 1..8 bytes behind the tables (a consumer starts where the field says); program format/address size equal those of the referencing CU',
                'every sequence ends with DW_LNE_end_sequence; addresses stay below 2^63; rows are compared as unbounded integers, and the line register '
                'is not compared in programs where the reference machine drives it negative (counted as out-of-domain)',
                'DW_LNE_define_file only in versions 2-4; known standard opcodes keep their standard operand counts in standard_opcode_lengths',
@@ -189,6 +189,11 @@ def run_case(ctx, case):
         if lp.program_end_offset != end:
             ctx.fail('extent|program_end_offset', 'expected %d got %r' % (end, lp.program_end_offset), case)
         ops_len = len(LP.enc_ops(case['le'], p['addr_size'], p['opcode_base'], p['std_lengths'], p['ops']))
+        if p.get('hdr_slack'):
+            ctx.count('header.slack-behind-tables')
+        exp_hl = (end - ops_len) - (offs[pi] + (4 if p['fmt'] == 32 else 12) + 2 + (2 if p['version'] >= 5 else 0) + O)
+        if h['header_length'] != exp_hl:
+            ctx.fail('header|field|header_length', 'program %d: encoded %d decoded %r' % (pi, exp_hl, h['header_length']), case)
         if lp.program_start_offset != end - ops_len:
             ctx.fail('extent|program_start_offset|%s' % tag, 'expected %d got %r' % (end - ops_len, lp.program_start_offset), case)
             continue
@@ -345,6 +350,8 @@ def build_prog(ch, tier, case, cell=None):
          'max_ops': ch.choice([1, 1, 1, 2, 4, 8]) if ver >= 4 else 1, 'default_is_stmt': ch.choice([1, 1, 0, 0, 255]),
          'line_base': ch.choice([-5, -5, -3, -1, 0, 1, -128, 127, ch.int(-128, 127)]), 'line_range': ch.choice([14, 14, 12, 1, 2, 255, ch.int(1, 255)]),
          'opcode_base': opcode_base, 'std_lengths': std_lengths}
+    if ch.bool(0.15):
+        p['hdr_slack'] = ch.choice([b'\0', bytes(3), b'\x01', ch.bytes(1, 8), b'\x00\x01\x01'])
     if ver >= 5:
         for fmtkey, entkey, cts in (('dir_format', 'dirs5', [1]), ('file_format', 'files5', [1, 2, 3, 4, 5, 0x2001, 0x2002])):
             use = [1] + [c for c in cts[1:] if ch.bool(0.5)]
